@@ -51,7 +51,7 @@ def main():
             open(p, "w").write(s)
         t0 = time.time()
         env = dict(os.environ, VV_REPO=MUT, VERIF_SEED=str(m.get("seed", 1)))
-        r = subprocess.run(["/verif/check", m["prop"], "--tier", m.get("tier", "quick")], stdout=subprocess.PIPE,
+        r = subprocess.run(["/verif/check", os.environ.get("MUT_PROP", m["prop"]), "--tier", os.environ.get("MUT_TIER", m.get("tier", "quick"))], stdout=subprocess.PIPE,
                            stderr=subprocess.STDOUT, text=True, env=env, cwd="/verif")
         viol = [l for l in r.stdout.splitlines() if l.startswith("VIOLATION") or l.startswith("FAILURE")]
         verdict = "CAUGHT" if r.returncode == 1 and any(l.startswith("VIOLATION") for l in viol) else (
